@@ -33,10 +33,10 @@ ASSUMPTIONS = [
     "field combinations refused by BugUpdate.__post_init__ with BugzillaUsageError are counted, not judged",
 ]
 BOUNDS = {
-    "quick": "values {a,b,c}: 50 changes -> 2500 ordered pairs x 41 initial lists over {a,b,c,d} (len<=3), plus int values {1,2,3}; "
-    "BugUpdate: all subsets of <=3 of 17 fields x 1-4 values each",
-    "thorough": "values {a,b,c,d} tuples len<=3: 397 changes -> 157k ordered pairs x 206 initial lists over {a..e} (len<=4); "
-    "BugUpdate: all subsets of <=4 of 17 fields x values, plus all 2^17 subsets with the first value",
+    "quick": "values {a,b,c}, tuples of length <=2: 47 changes -> 2,209 ordered pairs x 41 duplicate-free initial lists over {a,b,c,d} (len<=3); "
+    "the same with int values {1,2,3}; BugUpdate: all 4,043 assignments of <=3 of 17 fields x 1-4 values each",
+    "thorough": "values {a,b,c,d}, tuples of length <=3: 254 changes -> 64,516 ordered pairs x 206 initial lists over {a..e} (len<=4), plus the int "
+    "alphabet; BugUpdate: all assignments of <=4 of 17 fields x values, plus every larger field subset with the first value (153,265)",
 }
 
 # ---------------------------------------------------------------------------------------------- part A: alphabet
